@@ -30,6 +30,10 @@ func c15RunCLI(cs c15Case, v0 *c14VCS, rec c15Rec, signed *[]string) error {
 	}
 	side := filepath.Join(cs.cliDir, "fw_scrtm_ver.pb")
 	os.Remove(side)
+	os.Remove(filepath.Join(cs.cliDir, "fw.fd.scrtm.pb"))
+	if cs.sideAlt {
+		side = filepath.Join(cs.cliDir, "fw.fd.scrtm.pb")
+	}
 	if r.svn != 0 {
 		b, _ := proto.Marshal(&vpb.SCRTMVersion{Version: vpb.FirmwareVersion_Version(r.svn)})
 		if err := os.WriteFile(side, b, 0644); err != nil {
